@@ -50,6 +50,9 @@ type Op struct {
 	// JSONCfg: the Config of this call carries the JSON format option (MatchJSON and
 	// MatchStandaloneJSON then format with it instead of the defaults)
 	JSONCfg *snaps.JSONConfig `json:"json_cfg,omitempty"`
+	// Blocked: while this call runs a regular file sits where the (not yet existing) snapshot
+	// directory is wanted; it is removed again right after the call
+	Blocked bool              `json:"blocked,omitempty"`
 	Fault   bool              `json:"fault,omitempty"`
 	FaultAt int64             `json:"fault_at,omitempty"`
 }
@@ -166,6 +169,25 @@ func (s *Sess) MultiFiles() []string {
 	}
 	sort.Strings(out)
 	return out
+}
+
+// RemoveSnapshotDir removes the snapshot directory with everything in it behind the
+// library's back (regenerating all snapshots from scratch, `git clean`) and mirrors it in
+// the model. Only for sessions whose directory is not the scratch root itself.
+func (s *Sess) RemoveSnapshotDir() bool {
+	if s.Sub == "" {
+		return false
+	}
+	if _, err := os.Lstat(s.Dir()); err != nil {
+		return false
+	}
+	os.RemoveAll(s.Dir())
+	for p := range s.Store.Files {
+		if strings.HasPrefix(p, s.Dir()+string(filepath.Separator)) {
+			delete(s.Store.Files, p)
+		}
+	}
+	return true
 }
 
 // StandaloneFiles lists the standalone files the model currently holds, sorted.
@@ -598,6 +620,16 @@ func (s *Sess) Step(t *vkit.T, o Op, m vkit.Mode) StepResult {
 	}
 	mutating := res.Expected == vkit.Added || res.Expected == vkit.Updated
 
+	blocked := false
+	if o.Blocked && s.Sub != "" {
+		if _, err := os.Lstat(s.Dir()); os.IsNotExist(err) {
+			os.MkdirAll(filepath.Dir(s.Dir()), 0o755)
+			if os.WriteFile(s.Dir(), []byte("a regular file where the snapshot directory is wanted"), 0o644) == nil {
+				blocked = true
+				defer os.Remove(s.Dir()) // the obstacle is gone when the next call comes
+			}
+		}
+	}
 	vkit.Backdate(s.Root)
 	d0 := vkit.TakeDigest(s.Root)
 	bufProblem := ""
@@ -610,6 +642,16 @@ func (s *Sess) Step(t *vkit.T, o Op, m vkit.Mode) StepResult {
 	}()
 	res.Signals = t.Take()
 	res.Got = vkit.Classify(res.Signals)
+	if blocked && mutating && res.Got == vkit.Failed {
+		// the directory could not be created and the call said so; nothing was stored
+		s.Store.Files[path] = before
+		if len(before) == 0 {
+			delete(s.Store.Files, path)
+		}
+		res.Faulted = "directory-blocked"
+		res.Expected = vkit.Failed
+		return res
+	}
 	if o.Fault && mutating && res.Got == vkit.Failed {
 		// the write failed and the call said so: the model takes over what is on disk now.
 		// (Anything else - "added", "updated", a pass - is a claim that the value is stored
